@@ -469,20 +469,22 @@ func explore(s *mstate, t int, path []label, out map[string]term, seen map[strin
 		panic("c02: witness search exploded")
 	}
 	moved := false
-	th := &s.thr[t]
-	if th.live && th.stage == sReg && len(th.todo) > 0 {
-		c := s.clone()
-		if c.reg(t) {
-			explore(c, t, ext(path, label{kind: lReg, a: t}), out, seen)
+	for x := range s.thr {
+		th := &s.thr[x]
+		if th.live && th.stage == sReg && len(th.todo) > 0 {
+			c := s.clone()
+			if c.reg(x) {
+				explore(c, t, ext(path, label{kind: lReg, a: x}), out, seen)
+			}
+			moved = true
 		}
-		moved = true
-	}
-	if th.live && th.stage == sRel {
-		c := s.clone()
-		if c.unlock(t) {
-			explore(c, t, ext(path, label{kind: lUnlock, a: t}), out, seen)
+		if th.live && th.stage == sRel {
+			c := s.clone()
+			if c.unlock(x) {
+				explore(c, t, ext(path, label{kind: lUnlock, a: x}), out, seen)
+			}
+			moved = true
 		}
-		moved = true
 	}
 	for o := range s.locks {
 		m := &s.locks[o]
@@ -535,9 +537,19 @@ type actT struct {
 	Keys  []int `json:"keys,omitempty"` // caller's list (key indices)
 	Write bool  `json:"write,omitempty"`
 	Multi bool  `json:"multi,omitempty"` // Locks/RLocks/Unlocks/RUnlocks rather than the single-key call
+	// Burst: these callers enter AT ONCE (released through one gate); the runtime picks the interleaving of their
+	// table sections and lock steps.  When non-empty the other fields are unused.
+	Burst []actT `json:"burst,omitempty"`
 }
 
 func (a actT) coq() string {
+	if len(a.Burst) > 0 {
+		cs := make([]string, len(a.Burst))
+		for i, b := range a.Burst {
+			cs[i] = fmt.Sprintf("(%d,(%s,%v))", b.T, natList(b.Keys), b.Write)
+		}
+		return "(ABurst [" + strings.Join(cs, ";") + "])"
+	}
 	if a.Call {
 		return fmt.Sprintf("(ACall %d %s %v)", a.T, natList(a.Keys), a.Write)
 	}
@@ -564,20 +576,26 @@ func witness(nt, nk int, sh func(int) int, rounds []roundT) (labels [][]label, f
 		next := map[string]*node{}
 		for _, n := range set {
 			c := n.s.clone()
-			var first label
-			ok := false
-			if rd.Act.Call {
-				first = label{kind: lCall, a: rd.Act.T, ks: rd.Act.Keys, w: rd.Act.Write}
+			var first []label
+			ok := true
+			switch {
+			case len(rd.Act.Burst) > 0:
+				for _, b := range rd.Act.Burst {
+					first = append(first, label{kind: lCall, a: b.T, ks: b.Keys, w: b.Write})
+					ok = ok && c.call(b.T, b.Keys, b.Write, sh)
+				}
+			case rd.Act.Call:
+				first = []label{{kind: lCall, a: rd.Act.T, ks: rd.Act.Keys, w: rd.Act.Write}}
 				ok = c.call(rd.Act.T, rd.Act.Keys, rd.Act.Write, sh)
-			} else {
-				first = label{kind: lRelease, a: rd.Act.T}
+			default:
+				first = []label{{kind: lRelease, a: rd.Act.T}}
 				ok = c.release(rd.Act.T)
 			}
 			if !ok {
 				continue
 			}
 			out := map[string]term{}
-			explore(c, rd.Act.T, []label{first}, out, map[string]bool{})
+			explore(c, rd.Act.T, first, out, map[string]bool{})
 			for k, tm := range out {
 				if _, dup := next[k]; dup {
 					continue
